@@ -56,6 +56,7 @@ type FnVerifier struct {
 	usedExt       map[string]string
 	usedContracts map[string]bool
 	typeTags      map[string]int
+	payloadAx     bool
 	oblSeen       map[string]int
 	siteCount     map[string]int
 	lockBase      *State // state at first Lock (old() for atomic functions)
@@ -796,8 +797,10 @@ func (fr *Frame) execInstr(st *State, in ssa.Instruction) {
 			fr.vals[x] = Val{Loc: &Loc{key: v.fieldKey(bt, x.Field), idx: []string{base.T}, cellT: ft, T: ft}}
 			return
 		}
-		// pointer to an opaque struct: treat field as part of the boxed value -> unsupported
-		v.unsupported("FieldAddr on opaque struct %s", bt)
+		// pointer to an opaque (external) struct: the field is an uninterpreted component of the boxed value
+		v.smt.note("field of external struct " + bt.String() + " read/written through uninterpreted getter/setter")
+		fr.vals[x] = Val{Loc: &Loc{key: v.boxKey(bt), idx: []string{base.T}, cellT: bt, T: ft,
+			path: []pathElem{{dt: v.smt.sortOf(bt), st: sT, field: x.Field, opq: true}}}}
 	case *ssa.IndexAddr:
 		idx := fr.term(st, x.Index)
 		switch u := x.X.Type().Underlying().(type) {
@@ -974,6 +977,7 @@ func (fr *Frame) execUnOp(st *State, x *ssa.UnOp) {
 			n := fr.freshVal(x)
 			v.smt.assert(v.closedFact(n, x.Type(), v.alloc(st), 0))
 		}
+		fr.countRecv(st, fr.term(st, x.X), "true")
 		v.smt.note("channel receive yields an unconstrained value")
 	case token.XOR:
 		f := v.smt.declareFun("bitnot", []string{"Int"}, "Int")
@@ -1066,7 +1070,7 @@ func (fr *Frame) execSlice(st *State, x *ssa.Slice) {
 }
 
 func (v *FnVerifier) typeTag(t types.Type) int {
-	k := types.TypeString(t, nil)
+	k := normBasic(types.TypeString(t, nil))
 	if n, ok := v.typeTags[k]; ok {
 		return n
 	}
